@@ -877,11 +877,12 @@ def register_all(M):
     def m_str_get(it, args, callee):
         el = elems_of(args[0])
         r = args[1]
-        if not (isinstance(r, Agg) and r.kind == "adt:Range"):
+        if not (isinstance(r, Agg) and r.kind in ("adt:Range", "adt:RangeFrom", "adt:RangeTo", "adt:RangeFull")):
             raise Unsupported("str::get with %r" % (r,))
-        lo, hi = r.fields
         ps = prefix_sums(el)
         total = ps[-1]
+        lo = r.fields[0] if r.kind in ("adt:Range", "adt:RangeFrom") else 0
+        hi = r.fields[1] if r.kind == "adt:Range" else (r.fields[0] if r.kind == "adt:RangeTo" else total)
 
         def idx(off):
             # Option-returning variant: None when off is not a boundary / out of range
@@ -2133,6 +2134,15 @@ def register_all(M):
     @reg("Box::new")
     def m_box_new(it, args, callee):
         return Box(args[0])
+
+    @reg("char::encode_utf8")
+    def m_char_encode_utf8(it, args, callee):
+        return Str([args[0]])
+
+    @reg("unicode_to_bijoy")
+    def m_unicode_to_bijoy(it, args, callee):
+        # the third-party encoder: a tagging function ('#' + the text), as in the Kani read-out harnesses
+        return SString([0x23] + list(elems_of(args[0])))
 
     @reg("Box::new_uninit")
     def m_box_new_uninit(it, args, callee):
